@@ -51,3 +51,17 @@ Fixpoint uassoc {A} (k : ustring) (l : list (ustring * A)) : option A :=
   | [] => None
   | (k', v) :: l' => if ueqb k k' then Some v else uassoc k l'
   end.
+
+(* ---- YAML tag constants (shared by the resolver model and the node model) ---- *)
+Definition tag_str : ustring := u "tag:yaml.org,2002:str"%string.
+Definition tag_int : ustring := u "tag:yaml.org,2002:int"%string.
+Definition tag_float : ustring := u "tag:yaml.org,2002:float"%string.
+Definition tag_bool : ustring := u "tag:yaml.org,2002:bool"%string.
+Definition tag_null : ustring := u "tag:yaml.org,2002:null"%string.
+Definition tag_timestamp : ustring := u "tag:yaml.org,2002:timestamp"%string.
+Definition tag_seq : ustring := u "tag:yaml.org,2002:seq"%string.
+Definition tag_map : ustring := u "tag:yaml.org,2002:map"%string.
+Definition tag_merge : ustring := u "tag:yaml.org,2002:merge"%string.
+Definition tag_value : ustring := u "tag:yaml.org,2002:value"%string.
+Definition tag_yaml : ustring := u "tag:yaml.org,2002:yaml"%string.
+Definition tag_binary : ustring := u "tag:yaml.org,2002:binary"%string.
